@@ -50,7 +50,7 @@ type vkPlug struct {
 	prepared *time.Duration
 	last     *time.Duration       // instant of the most recent Prepare of this interface (re-initialisations included)
 	all      *[]time.Duration     // every Prepare instant of the run (any interface)
-	delay    func() time.Duration // how long a lookup of addresses or routes takes right now (a slow netlink dump while requests overlap)
+	delay    func() time.Duration // how long a lookup of addresses or routes takes right now, in real time (a slow netlink dump while requests overlap)
 	w        func() time.Duration
 }
 
@@ -77,9 +77,7 @@ func (p *vkPlug) Prepare(ifi *net.Interface) error {
 	}
 	slow := func() {
 		if p.delay != nil {
-			if d := p.delay(); d > 0 {
-				time.Sleep(d)
-			}
+			realSleep(p.delay())
 		}
 	}
 	addrs := func() ([]system.IP, error) {
@@ -355,18 +353,20 @@ func c17Prop(t *testing.T, k *verifkit.Kit) func(c c17Case) error {
 						p.PProf = rec.Code
 					}()
 					p.End = w.now()
-					// (two rounds: three requests 0.7 ms apart, then two requests 1.4 ms apart - with three, what one request
+					// (two rounds: three requests 0.175 ms of real time apart, then two requests 0.35 ms apart - with three, what one request
 					// overwrites in shared state another may put back before the first looks again)
-					for _, offs := range [][]time.Duration{{0, 700 * time.Microsecond, 1400 * time.Microsecond}, {0, 1400 * time.Microsecond}} {
+					for _, offs := range [][]time.Duration{{0, 175 * time.Microsecond, 350 * time.Microsecond}, {0, 350 * time.Microsecond}} {
 						if !(c.Overlap && p.Panic == "" && p.ScrapeErr == nil) {
 							break
 						}
 						{
 							// last in the probe (it takes a few virtual milliseconds): three scrapes that overlap in time (two Prometheus servers, a slow sysctl read):
 							// each one on its own must be as complete as a scrape that runs alone
+							// (all waiting in here is in real time - realSleep - so that an implementation which holds a lock
+							// across a lookup serialises the requests instead of wedging the bubble)
 							w.mu.Lock()
-							old := w.stDelay
-							w.stDelay = time.Millisecond
+							old, oldReal := w.stDelay, w.stDelayReal
+							w.stDelay, w.stDelayReal = 250*time.Microsecond, true
 							w.mu.Unlock()
 							var wg sync.WaitGroup
 							outs := make([]map[string]map[string]float64, len(offs))
@@ -380,7 +380,7 @@ func c17Prop(t *testing.T, k *verifkit.Kit) func(c c17Case) error {
 											errs[gi] = fmt.Errorf("panic: %v", r)
 										}
 									}()
-									time.Sleep(offs[gi])
+									realSleep(offs[gi])
 									outs[gi], errs[gi] = vkScrape(w.mm)
 								}()
 							}
@@ -399,7 +399,7 @@ func c17Prop(t *testing.T, k *verifkit.Kit) func(c c17Case) error {
 												bodies[gi] = []byte(fmt.Sprintf("panic: %v", r))
 											}
 										}()
-										time.Sleep(offs[gi])
+										realSleep(offs[gi])
 										rec := httptest.NewRecorder()
 										h.ServeHTTP(rec, httptest.NewRequest("GET", "/_/api/interfaces", nil))
 										codes[gi], bodies[gi] = rec.Code, rec.Body.Bytes()
@@ -414,7 +414,7 @@ func c17Prop(t *testing.T, k *verifkit.Kit) func(c c17Case) error {
 							}
 							p.OverlapTo = w.now()
 							w.mu.Lock()
-							w.stDelay = old
+							w.stDelay, w.stDelayReal = old, oldReal
 							w.mu.Unlock()
 							keys := func(m map[string]map[string]float64) string {
 								var ks []string
